@@ -55,6 +55,8 @@ M = [
  ("c03-net-adapter-drops-blocks-below-head", "C03", "servers/src/common/adapters.rs", "\t\t\tif b.header.height < horizon {", "\t\t\tif b.header.height < horizon || b.header.height < head.height {", ["C03"]),
  ("c11-net-get-block-handler-unwraps", "C11", "servers/src/common/adapters.rs", "\t\t\t\t3..=ProtocolVersion::MAX => Some(b),\n\t\t\t})\n\t\t\t.unwrap_or(None)", "\t\t\t\t3..=ProtocolVersion::MAX => Some(b),\n\t\t\t})\n\t\t\t.unwrap()", ["C11"]),
  ("c11-net-segment-height-range-dropped", "C11", "servers/src/common/adapters.rs", "\t\tif !KERNEL_SEGMENT_HEIGHT_RANGE.contains(&id.height) {", "\t\tif false && !KERNEL_SEGMENT_HEIGHT_RANGE.contains(&id.height) {", ["C11"]),
+ ("c03-mesh-header-relay-suppressed", "C03", "p2p/src/peer.rs", "\tpub fn send_header(&self, bh: &core::BlockHeader) -> Result<bool, Error> {\n\t\tif !self.tracking_adapter.has_recv(bh.hash()) {", "\tpub fn send_header(&self, bh: &core::BlockHeader) -> Result<bool, Error> {\n\t\tif self.tracking_adapter.has_recv(bh.hash()) {", ["C03"]),
+ ("c14-mesh-tx-relay-by-full-tx-dropped", "C14", "servers/src/common/adapters.rs", "\t\tlet tx = self.tx_pool.read().retrieve_tx_by_kernel_hash(kernel_hash);\n\n\t\tif tx.is_none() {\n\t\t\tself.request_transaction(kernel_hash, peer_info);\n\t\t}", "\t\tlet tx = self.tx_pool.read().retrieve_tx_by_kernel_hash(kernel_hash);\n\n\t\tif tx.is_some() {\n\t\t\tself.request_transaction(kernel_hash, peer_info);\n\t\t}", ["C14"]),
  ("c18-resize-check-skipped-when-busy", "C18", "store/src/lmdb.rs", "\t\t\tif nested_tx {\n\t\t\t\treturn;\n\t\t\t}\n\t\t\tthread::sleep(Duration::from_millis(1));", "\t\t\tlet _ = nested_tx;\n\t\t\treturn;", ["C18"]),
 ]
 
